@@ -249,7 +249,7 @@ impl ShaderPackage {
     pub fn find_node(&self, selector: u32) -> Option<&Node> {
         for (sel, node) in &self.node_selectors {
             if *sel == selector {
-                return Some(&self.nodes[*node as usize]);
+                return self.nodes.get(*node as usize);
             }
         }
 
